@@ -14,6 +14,7 @@ type GenCfg struct {
 	Failing   bool // failing operator g
 	Custom    bool // registered operators f, p
 	H         bool // stateful operator h
+	WrongBool bool // occasionally a non-boolean operand of and/or (outside C01's domain; C10 folds around them)
 	Wrong     bool // occasionally ill-typed operands of non-and/or operators, non-bool if condition
 	Lists     bool
 	Strings   bool
@@ -24,8 +25,9 @@ type GenCfg struct {
 }
 
 type gen struct {
-	r *rand.Rand
-	c GenCfg
+	r        *rand.Rand
+	c        GenCfg
+	illTyped int // number of deliberately ill-typed and/or operands generated so far
 }
 
 func (g *gen) pick(names ...string) string {
@@ -174,6 +176,9 @@ func (g *gen) tree(typ string, d int) (*Tree, int64) {
 					return op("h", cst(int64(0))), 1000
 				}
 				if g.c.Custom {
+					if r.Intn(4) == 0 {
+						return op("one"), 1 // zero-operand operator: pushes without popping
+					}
 					a, ab := g.tree("i", d-1)
 					if r.Intn(3) == 0 {
 						b, _ := g.tree("i", d-1)
@@ -190,6 +195,11 @@ func (g *gen) tree(typ string, d int) (*Tree, int64) {
 				n := g.nk()
 				t := op(g.pick("and", "&&", "&"))
 				for i := 0; i < n; i++ {
+					if g.c.WrongBool && r.Intn(8) == 0 {
+						g.illTyped++
+						t.Kids = append(t.Kids, sub([]string{"i", "s"}[r.Intn(2)]))
+						continue
+					}
 					t.Kids = append(t.Kids, sub("b"))
 				}
 				return t, 1
@@ -197,6 +207,11 @@ func (g *gen) tree(typ string, d int) (*Tree, int64) {
 				n := g.nk()
 				t := op(g.pick("or", "||", "|"))
 				for i := 0; i < n; i++ {
+					if g.c.WrongBool && r.Intn(8) == 0 {
+						g.illTyped++
+						t.Kids = append(t.Kids, sub([]string{"i", "s"}[r.Intn(2)]))
+						continue
+					}
 					t.Kids = append(t.Kids, sub("b"))
 				}
 				return t, 1
